@@ -1,5 +1,6 @@
 import EoVerif.Generated.SrcStr
 import EoVerif.Model.Str
+import EoVerif.Lemmas.PyLoops
 /-!
   # Source tie for `eolib/data/string_encoding_utils.py` (C08)
 
@@ -11,7 +12,6 @@ import EoVerif.Model.Str
 namespace EoVerif.SrcTie
 open EoVerif
 
-def ofBytes (bs : Bytes) : List Int := bs.map Int.ofNat
 
 /-- one loop iteration on an `Int` byte -/
 def invI (fl : Bool) (c : Int) : Int :=
